@@ -30,7 +30,8 @@ import (
 // 10 initiation sent, 11 response sent, 12 keepalive sent, 13 data sent (a = id),
 // 14 TUN write (a = id), 15 datagram for which Bind.Send returned an error (a = 0 initiation,
 // 1 response, 2 keepalive, 3 data), 6 device down, 7 hook: keypairs a seconds older,
-// 8 hook: handshakeAttempts := a, 20 end of observation.
+// 8 hook: handshakeAttempts := a, 9 UAPI set creating the peer on a device that is up,
+// 20 end of observation.
 type Item struct {
 	C   int    `json:"c"`
 	T   int64  `json:"t"` // microseconds
@@ -114,6 +115,16 @@ func (s *scen) setAttempts(n int) {
 	s.w.Dev.VerifSetHandshakeAttempts(cosim.NoisePK(s.p.Pub), uint32(n))
 }
 
+// configure creates the peer (endpoint, allowed IPs, persistent keepalive) with ONE
+// UAPI set operation; the device is up already.
+func (s *scen) configure() {
+	s.in(9, 0, 0)
+	s.p.Configured = true
+	if err := s.w.Dev.IpcSet(cosim.PeerConfig(s.p, true)); err != nil {
+		s.err = "set: " + err.Error()
+	}
+}
+
 func (s *scen) down() {
 	s.in(6, 0, 0)
 	if err := s.w.Dev.Down(); err != nil {
@@ -127,6 +138,9 @@ func newScen(spec Spec) (*scen, error) {
 	per := spec.Per
 	if per < 1 {
 		per = 1
+	}
+	if spec.Var == "uapi" {
+		p.Configured = false // created later, by a set operation on the device that is up
 	}
 	w, err := cosim.NewWorld(cosim.Config{Up: false, BindBatch: 1, TunBatch: per}, true, p)
 	if err != nil {
@@ -434,7 +448,15 @@ func run(spec Spec) Case {
 	if per < 1 {
 		per = 1
 	}
-	s.up()
+	if spec.Var == "uapi" {
+		if err := s.w.Dev.Up(); err != nil { // no peer yet: not an event of the peer's trace
+			s.err = "up: " + err.Error()
+		}
+		time.Sleep(30 * ms)
+		s.configure()
+	} else {
+		s.up()
+	}
 	time.Sleep(30 * ms)
 	switch spec.Kind {
 	case "retx":
@@ -638,7 +660,19 @@ func run(spec Spec) Case {
 		}
 		time.Sleep(300 * ms)
 		s.tun(per)
-		if spec.Var == "answered" {
+		if spec.Var == "exchange" {
+			// an answered exchange first (the reply arrives while the timer is pending and
+			// deletes it), then data into silence: the timer must be armed again
+			time.Sleep(time.Duration(200+spec.Delay*3%600) * ms)
+			if spec.Delay%2 == 0 {
+				s.recvKa()
+			} else {
+				s.recvData()
+			}
+			time.Sleep(time.Duration(200+spec.Delay*5%500) * ms)
+			s.tun(per)
+			time.Sleep(15334*ms + 650*ms)
+		} else if spec.Var == "answered" {
 			t0 := time.Now()
 			time.Sleep(time.Duration(500+spec.Delay*3%1500) * ms)
 			s.recvKa()
@@ -913,6 +947,10 @@ func quickSpecs(r *rand.Rand) []Spec {
 		{Kind: "newhs", Role: "resp", Per: 1, Delay: d()},
 		{Kind: "newhs", Role: "init", Per: 2, Var: "twice", Delay: d()},
 		{Kind: "newhs", Role: "resp", Per: 1, Var: "answered", Delay: d()},
+		{Kind: "newhs", Role: "init", Per: 1, Var: "exchange", Delay: d()},
+		{Kind: "newhs", Role: "resp", Per: 2, Var: "exchange", Delay: d()},
+		{Kind: "persist", Pka: 1, N: 3, Var: "uapi", Delay: d()},
+		{Kind: "retx", N: 1, Pka: 2, Var: "uapi", Delay: d()},
 		{Kind: "persist", Pka: 1, N: 4, Delay: d()},
 		{Kind: "persist", Pka: 1, N: 3, Delay: d()},
 		{Kind: "persist", Pka: 2, N: 2, Var: "rx", Delay: d()},
